@@ -56,6 +56,30 @@ that leaves behaviour unchanged, which the brief forbids. None of those alarms w
 
 After the rewrite all 40 refactorings of the first set are silent, and of a second, unseen set of 40 written afterwards by fresh
 sub-agents 31 were silent at the first attempt (6.7); the remaining ones exposed the last text-based rules, which were converted too.
+A third unseen set (T, 40 more, with emphasis on helper extraction, generator helpers, renamed parameters and tuple unpacking) was
+silent on 25 at first attempt; a fourth (U, 40, combined clean-ups) is reported in 6.7. What each residue taught, and the general
+mechanism added for it (never a special case for the patch):
+
+* **pinned vocabulary** (`vocabulary.py`): the functions, classes and parameter names of the package at the pinned commit. The rules
+  speak in this vocabulary. A function that is *not* in it -- a helper somebody extracted later -- is never an event in a table: it is
+  inlined, at the AST level (`unhelper.py`: procedure, value, expression, `yield from` generator and `for x in helper(..)` loop-generator
+  helpers; locals renamed apart; a value helper used inside a larger expression is hoisted to the statement before), and what cannot be
+  inlined structurally is followed by the evaluator. A parameter of a pinned function that was renamed (same arity) is renamed back for
+  the analysis, with the keyword arguments of its callers (`restore_param_names`). Writer-set rules attribute a write made in an
+  extracted helper to the pinned methods that call it (`pinned_writers`).
+* **records** (`nt.py`, K8): `_GlobPart` is read by field name, by index and -- after a refactoring -- by unpacking. A local type
+  inference over the annotations and `# type:` comments the code already carries (parameter `part: _GlobPart`, `rest: list[_GlobPart]`,
+  `self.pattern  # type: list[list[_GlobPart]]`, results of `.pop()`, indexing, slicing, iteration, starred unpacking) decides which
+  expressions are records; for those, `x[k]` becomes `x.<field k>`, `a, b, ... = x` becomes the field reads, `h, *t = xs` becomes
+  `t = xs[:]; h = t.pop(0)`. Nothing is rewritten where the type is not known.
+* **K9** `yield from (E for a in A for b in B if c)` is the loop nest that yields `E`; **K10** a closure reading an integer of the
+  enclosing function that is chosen together with a boolean flag (`other_esc = 5` in the bytes arm, `6` in the str arm) reads
+  `5 if is_bytes else 6`.
+* the **slicer** keeps an exit that holds the site of interest and every exit that precedes it (`if c: return` guards everything after
+  it) -- early-return style gave wrong guards before; **type guards** are resolved through locals (`is_bytes = isinstance(x, bytes)`;
+  `if is_bytes:`) and `1 if is_bytes else 0` is accepted as a twin index.
+* `_glob_dir` (entry verdict, descent, recursion arguments), `_pathlib_norm` (strip rule) and the separator arm of `_sequence` became
+  decision tables; they had been the last rules that found their subject by the name of a local.
 What is still syntactic is listed in 6.5.
 
 ### 6.1 Engine as built (`/verif/wcverif/`, stdlib only, ~14 k lines)
@@ -63,7 +87,8 @@ What is still syntactic is listed in 6.5.
 | module | role |
 |--------|------|
 | `model.py` | loader, module-level constant resolver (`ConstEval`: now also comprehensions over constants and pure str/bytes/dict methods), function/class index, name resolution |
-| `canon.py` | canonical forms K1-K7 (6.0), applied at load time |
+| `canon.py`, `nt.py` | canonical forms K1-K7, K9, K10 and the record canonicalisation K8 (6.0), applied at load time |
+| `vocabulary.py`, `unhelper.py` | pinned vocabulary of functions / classes / parameter names; AST-level inlining of helpers that are not part of it; parameter names restored |
 | `cfg.py`, `pathq.py` | CFG (one `cond` node per short-circuit atom, loops, try/finally, yields, exceptional edges), dominators, `guards(node)` -- still used by the dominance / typestate / exception-escape / definite-assignment rules |
 | `rx.py` | regex-fragment domain: structural facts and *contextual language equivalence* with look-aheads, `^`, `$`, `\Z` by a derivative construction; reports the shortest distinguishing word |
 | `symeval.py`, `tables.py` | decision tables with events (6.0); symbolic flag words (`BV`: forced bits + "equals the caller's bit"); comparison of a table with a specification oracle over partial valuations, with mutually exclusive atom groups |
